@@ -984,7 +984,7 @@ func judge(tracePath, specPath string) {
 	var sum hx.Summary
 	spec := map[int]*specLine{}
 	hx.ReadNDJSON(specPath, func(i int, s *specLine) { spec[s.I] = s })
-	nacc, nundet, ntsigoff := 0, 0, 0
+	nacc, nundet, ntsigoff, nnoted := 0, 0, 0, 0
 	hx.ReadNDJSON(tracePath, func(i int, e *verifyEv) {
 		if e.Ev != "verify" && e.Ev != "env" {
 			return
@@ -997,6 +997,10 @@ func judge(tracePath, specPath string) {
 		real := e.Got == ""
 		if e.Via == "server" || e.Via == "server-tsig-off" { // ResponseWriter.TsigStatus() is nil for an unsigned request too: verified = signed and nil
 			real = real && e.Signed
+		}
+		if e.Via == "server-out-noted" { // TSIG error replies the RFC wants unsigned: what the library sends is recorded, not judged
+			nnoted++
+			return
 		}
 		if e.Via == "server-tsig-off" { // a server without any TSIG configuration verifies nothing: outside the statement (AMBIG), counted only
 			if real {
@@ -1069,6 +1073,9 @@ func judge(tracePath, specPath string) {
 	sum.Nontrivial = nacc
 	sum.Note("accepting_events", nacc)
 	sum.Note("verdict_not_asserted_events", nundet)
+	if nnoted > 0 {
+		sum.Note("unsigned_tsig_error_replies_recorded", nnoted)
+	}
 	if ntsigoff > 0 {
 		sum.Note("signed_requests_with_nil_status_on_server_without_tsig_configuration", ntsigoff)
 	}
@@ -1109,6 +1116,15 @@ func reverify(in, out string) {
 }
 
 // ---------------------------------------------------------------- record: the server side
+
+// macLen: octets of a full MAC of the algorithm (0 = unknown)
+func macLen(alg string) int {
+	h, _ := stdHash(alg)
+	if h == nil {
+		return 0
+	}
+	return h().Size()
+}
 
 const (
 	srvKey   = "srv.example."
@@ -1153,13 +1169,33 @@ func recordServer(out string, n int) {
 			m := new(dns.Msg)
 			m.SetReply(req)
 			m.Answer = []dns.RR{rr(fmt.Sprintf("%s 60 IN TXT \"answer %d\"", req.Question[0].Name, i))}
-			if verified {
+			switch {
+			case verified:
 				m.SetTsig(ts.Hdr.Name, ts.Algorithm, 300, time.Now().Unix())
+			case ts != nil && st != nil:
+				// a TSIG error response (RFC 8945 5.2 / 5.3.2): the handler names the error in a TSIG on its reply and lets
+				// WriteMsg sign it.  BADTIME and BADTRUNC replies are signed, over the request MAC as received; for BADSIG
+				// and BADKEY the library (like the RFC) emits the TSIG without a MAC.
+				now := time.Now().Unix()
+				m.Rcode = dns.RcodeNotAuth
+				m.SetTsig(ts.Hdr.Name, ts.Algorithm, 300, now)
+				et := m.IsTsig()
+				switch {
+				case st == dns.ErrTime:
+					et.Error = dns.RcodeBadTime
+					et.OtherLen, et.OtherData = 6, fmt.Sprintf("%012x", now)
+				case st == dns.ErrSecret:
+					et.Error = dns.RcodeBadKey
+				case st == dns.ErrSig && int(ts.MACSize) < macLen(ts.Algorithm):
+					et.Error = dns.RcodeBadTrunc
+				default:
+					et.Error = dns.RcodeBadSig
+				}
 			}
 			return m
 		}
-		// the number of messages written never depends on the verdict (the client knows how many to read);
-		// they are signed iff the request verified
+		// the number of messages written never depends on the verdict (the client knows how many to read); they are
+		// signed iff the request verified, or carry the TSIG error (Transfer.Out itself signs verified requests only)
 		switch {
 		case req.Question[0].Qtype == dns.TypeAXFR:
 			ch := make(chan *dns.Envelope)
@@ -1224,7 +1260,7 @@ func recordServer(out string, n int) {
 		tab := cf.tab
 		what = cf.name + ", " + what
 		kind := kinds[rnd.Intn(len(kinds))]
-		variant := []string{"signed", "signed", "signed", "signed", "badsecret", "unsigned"}[rnd.Intn(6)]
+		variant := []string{"signed", "signed", "signed", "signed", "badsecret", "unsigned", "badtime", "badtime", "truncmac"}[rnd.Intn(9)]
 		key, si := srvKey, 1
 		if rnd.Intn(4) == 0 {
 			key, si = otherKey, 0
@@ -1250,12 +1286,32 @@ func recordServer(out string, n int) {
 		if variant == "unsigned" {
 			qo, err = q.Pack()
 		} else {
-			q.SetTsig(key, alg, 300, int64(now))
+			signed := int64(now)
+			if variant == "badtime" { // a correct MAC over a signing time far outside the fudge window, either side
+				signed += []int64{-3000, 3000}[rnd.Intn(2)]
+			}
+			q.SetTsig(key, alg, 300, signed)
 			sec := b64(secrets[si])
 			if variant == "badsecret" {
 				sec = b64(secrets[2])
 			}
 			qo, _, err = dns.TsigGenerate(q, sec, "", false)
+			if err == nil && variant == "truncmac" { // the MAC field cut to its first half (RFC 8945 5.2.2.1: admissible, the library refuses)
+				qm := new(dns.Msg)
+				if e := qm.Unpack(qo); e != nil || qm.IsTsig() == nil {
+					hx.Die("truncating the request MAC: %v", e)
+				}
+				t := qm.IsTsig()
+				cut := len(qo) - dns.Len(t)
+				t.MACSize /= 2
+				t.MAC = t.MAC[:2*int(t.MACSize)]
+				buf := make([]byte, dns.Len(t)+16)
+				off, e := dns.PackRR(t, buf, 0, nil, false)
+				if e != nil {
+					hx.Die("repacking the request TSIG: %v", e)
+				}
+				qo = append(append([]byte(nil), qo[:cut]...), buf[:off]...)
+			}
 		}
 		if err != nil {
 			hx.Die("request: %v", err)
@@ -1290,11 +1346,24 @@ func recordServer(out string, n int) {
 			Via: via, Secrets: tab, Got: errText(st.err), Signed: st.signed})
 		// (2) the responses: a session that starts on this request
 		w.Emit(verifyEv{Ev: "q", I: 0, What: desc, Octets: hx.FromBytes(qo), Reqmac: hx.B{}, Now: limbs(now), Secrets: tab})
-		if verifies && cf.assert {
+		// Judged: the answers to a request that verifies, and the TSIG error responses RFC 8945 5.3.2 wants SIGNED -- BADTIME
+		// (right MAC, time outside the window) and too-short MAC, under a key the server has: their MAC covers the request MAC
+		// as received, the reply and the full variables (error and other data included), like any first response.
+		// Noted only ("server-out-noted"): the replies to BADSIG / BADKEY requests, which carry a TSIG without MAC (RFC: unsigned).
+		signedError := (variant == "badtime" || variant == "truncmac") && has && kind != "axfr"
+		via2 := ""
+		switch {
+		case !cf.assert:
+		case verifies || signedError:
+			via2 = "server-out"
+		case variant != "unsigned" && kind != "axfr":
+			via2 = "server-out-noted"
+		}
+		if via2 != "" {
 			for k, p := range msgs {
 				idx++
 				w.Emit(verifyEv{Ev: "env", I: idx, What: fmt.Sprintf("response %d of %d, %s", k+1, want, desc), Octets: hx.FromBytes(p), Reqmac: hx.B{},
-					Now: limbs(uint64(time.Now().Unix())), Via: "server-out", Secrets: tab})
+					Now: limbs(uint64(time.Now().Unix())), Via: via2, Secrets: tab})
 			}
 		}
 		if len(msgs) != want {
